@@ -505,6 +505,25 @@ def g10_pair(rng):
     return a, b
 
 
+def g11_needles_pair(rng):
+    """long thin integer triangles ("needles") whose long edges cross at a tiny angle (1e-9 .. 1e-5 rad) well
+    inside both edges"""
+    k = rng.randint(1, 4)
+    L = k * rng.choice([2500, 10000, 25000, 250])
+    d = rng.choice([2, 3, 3, 5])
+    r = rng.randint(1, d - 1)
+    m = rng.randint(1, 2 * k)
+    a = [[[(0, 0), (4 * L, 4 * k), (2 * L, L), (0, 0)]]]
+    p = (m * (L // k) - r, m)
+    b = [[[p, (2 * L, -L), (p[0] + 3 * L + d, p[1] + 3 * k), p]]]
+    if rng.random() < 0.5:
+        a, b = b, a
+    if rng.random() < 0.3:
+        f = lambda q: (q[1], q[0])
+        a, b = map_mpoly(a, f), map_mpoly(b, f)
+    return a, b
+
+
 FAMILIES = {
     "g1": g1_pair,
     "g2": g2_pair,
@@ -514,6 +533,7 @@ FAMILIES = {
     "g5z": g5_negzero_pair,
     "g9": g9_evenodd_pair,
     "g10": g10_pair,
+    "g11": g11_needles_pair,
 }
 # families on which all arithmetic is exact by construction / usually exact / never exact
 EXACT_FAMILIES = {"g1", "g10"}
